@@ -65,4 +65,35 @@ theorem turnIsW_done (W : St → Res) (r : Res) (l : List Value) (p : Nat) :
     ↔ ∃ st : St, r = .val .unit st ∧ st.log = l ∧ st.pos = p ∧ envGet st.env "self" = none := Iff.rfl
 theorem turnIsW_next (W : St → Res) (r : Res) (st : St) : turnIsW W r (.next st) ↔ r = W st := Iff.rfl
 
+/-! ### `match`: evaluate the scrutinee first
+
+  `simp [rs_eval]` normalises the continuation `fun v st => evalArms .. v st` of a `match` for a SYMBOLIC `v` before the
+  scrutinee is evaluated; for a `match` with many arms that inline big functions (the message dispatch of the writer
+  thread) the resulting proof does not get through (simp or the kernel).  With `↓eval_matchE_G` in the simp set there
+  is no continuation: the arms are applied (`armsOn`) to the RESULT of the scrutinee, and unfold once that is a value. -/
+
+/-- the arms of a `match` on the result of its scrutinee -/
+def armsOn (n : Nat) (ctx : Ctx) (fr : Frame) (arms : List Arm) : Res → Res
+  | .val v st => evalArms n ctx fr arms v st
+  | .ret v st => .ret v st
+  | .panic => .panic
+  | .stuck m => .stuck m
+  | .brk v st => .brk v st
+  | .cont st => .cont st
+
+theorem eval_matchE_G (n : Nat) (ctx : Ctx) (fr : Frame) (s : Expr) (arms : List Arm) (st : St) :
+    eval (n + 1) ctx fr (.matchE s arms) st = armsOn n ctx fr arms (eval n ctx fr s st) := by
+  simp only [eval]
+  cases eval n ctx fr s st <;> rfl
+
+@[rs_eval] theorem armsOn_val (n ctx fr arms v st) : armsOn n ctx fr arms (.val v st) = evalArms n ctx fr arms v st := rfl
+@[rs_eval] theorem armsOn_ret (n ctx fr arms v st) : armsOn n ctx fr arms (.ret v st) = .ret v st := rfl
+@[rs_eval] theorem armsOn_panic (n ctx fr arms) : armsOn n ctx fr arms .panic = .panic := rfl
+@[rs_eval] theorem armsOn_stuck (n ctx fr arms m) : armsOn n ctx fr arms (.stuck m) = .stuck m := rfl
+@[rs_eval] theorem armsOn_ite (n ctx fr arms) (c : Prop) [Decidable c] (a b : Res) :
+    armsOn n ctx fr arms (if c then a else b) = if c then armsOn n ctx fr arms a else armsOn n ctx fr arms b := by
+  split <;> rfl
+@[rs_eval] theorem armsOn_orPanic {α} (n ctx fr arms) (o : Option α) (f : α → Res) :
+    armsOn n ctx fr arms (orPanic o f) = orPanic o fun a => armsOn n ctx fr arms (f a) := by cases o <;> rfl
+
 end ClockBound.Rs
